@@ -167,7 +167,8 @@ class _SocksMachine(object):
             self.reply_ipv6(addr, port)
 
     def _parse_domain_name_reply(self):
-        assert len(self._data) >= 8  # _parse_request_reply checks this
+        if len(self._data) < 5:
+            return
         addrlen = struct.unpack('B', self._data[4:5])[0]
         # may simply not have received enough data yet...
         if len(self._data) < (5 + addrlen + 2):
@@ -180,11 +181,11 @@ class _SocksMachine(object):
     @_machine.output()
     def _parse_request_reply(self):
         "waiting for a reply to our request"
-        # we need at least 6 bytes of data: 4 for the "header", such
-        # as it is, and 2 more if it's DOMAINNAME (for the size) or 4
-        # or 16 more if it's an IPv4/6 address reply. plus there's 2
-        # bytes on the end for the bound port.
-        if len(self._data) < 8:
+        # we need the 4 bytes of the "header", such as it is; how
+        # many more depends on the address type (a DOMAINNAME reply
+        # with an empty name is only 7 bytes) and is checked by the
+        # parser for that type.
+        if len(self._data) < 4:
             return
         msg = self._data[:4]
 
